@@ -2095,14 +2095,18 @@ class CollocatedIntegratedOptimizationProblem(OptimizationProblem, metaclass=ABC
 
                     if bound[0] is not None:
                         if isinstance(bound[0], Timeseries):
-                            lower_bound = self.interpolate(
-                                times,
-                                bound[0].times,
-                                bound[0].values,
-                                -np.inf,
-                                -np.inf,
-                                interpolation_method,
-                            ).ravel()
+                            lower_bound = (
+                                self.interpolate(
+                                    times,
+                                    bound[0].times,
+                                    bound[0].values,
+                                    -np.inf,
+                                    -np.inf,
+                                    interpolation_method,
+                                )
+                                .transpose()
+                                .ravel()
+                            )
                         elif isinstance(bound[0], np.ndarray):
                             lower_bound = (
                                 np.broadcast_to(bound[0], (n_times, variable_size))
@@ -2115,14 +2119,18 @@ class CollocatedIntegratedOptimizationProblem(OptimizationProblem, metaclass=ABC
 
                     if bound[1] is not None:
                         if isinstance(bound[1], Timeseries):
-                            upper_bound = self.interpolate(
-                                times,
-                                bound[1].times,
-                                bound[1].values,
-                                +np.inf,
-                                +np.inf,
-                                interpolation_method,
-                            ).ravel()
+                            upper_bound = (
+                                self.interpolate(
+                                    times,
+                                    bound[1].times,
+                                    bound[1].values,
+                                    +np.inf,
+                                    +np.inf,
+                                    interpolation_method,
+                                )
+                                .transpose()
+                                .ravel()
+                            )
                         elif isinstance(bound[1], np.ndarray):
                             upper_bound = (
                                 np.broadcast_to(bound[1], (n_times, variable_size))
